@@ -426,6 +426,10 @@ class Explorer:
             seen.update(level)
             self.states += len(level)
             nxt.extend(level.values())
+            if os.environ.get("VP_DUMP_CLASSES"):
+                # debugging aid: the classes of this depth with their representative histories (to compare two runs)
+                with open(os.path.join(os.environ["VP_DUMP_CLASSES"], "%s.d%d.json" % (self.label.replace("/", "_"), depth)), "w") as fh:
+                    json.dump(sorted((str(k), v_[1]) for k, v_ in level.items()), fh, default=str)
             if done < len(jobs):
                 self.ctx.cap("%s: deadline hit at depth %d (%d of %d transitions of this depth done)" % (
                     self.label, depth, done, len(jobs)))
